@@ -20,6 +20,7 @@ func init() {
 			"C17.alias: result types contain no reference into the input (Date, Number, Size, ID have no pointer/slice/string fields; Ver's strings are produced by copying string(...) conversions); no unsafe in the value packages. " +
 			"C17.generic: one generic body per parser, in which no type switch/assertion/reflect inspects a T-typed value, and every fmt verb applied to a T-typed value prints string and []byte identically.",
 		NotDecided:  []string{"error *types* differ by instantiation by design (ParseError[string] vs ParseError[[]byte]); only values and messages are claimed"},
+		Technique:   "store-then-error reachability, input alias/effect analysis and generic-body type rules over go/ssa",
 		Assumptions: []string{"stdlib read-only summaries (regexp.Find*/Match*, bytes.NewReader, json.NewDecoder, strconv.*) do not write their input", "FindSubmatch results alias the subject"},
 	})
 }
